@@ -134,7 +134,8 @@ def run(ctx, report: Report) -> None:
                                  f'the datetime module only represents years 1-9999')
                 continue
             if last in ('datetime', 'date') and c.args:
-                iv = miniev.interval(c.args[0], {}, lambda e: inv.folder.try_ev('css_match', e, default=None))
+                penv = miniev.param_intervals(src, mmod, fn, lambda mn_: (lambda e_: inv.folder.try_ev(mn_, e_, default=None)))
+                iv = miniev.interval(c.args[0], penv, lambda e: inv.folder.try_ev('css_match', e, default=None))
                 ok = iv is not None and iv[0] >= 1 and iv[1] <= 9999
                 r3.instance({'call': unparse(c)[:70], 'function': q, 'year_interval': list(iv) if iv else None,
                              'discharged': ok}, key=unparse(c))
